@@ -34,6 +34,15 @@ IGNORE = {"PyErr_SetObject", "PyErr_SetString", "PyErr_Format"}
 IMMORTAL = ("_Py_NoneStruct", "_Py_TrueStruct", "_Py_FalseStruct")
 # TU functions that only set an exception and return NULL (proved: `ret-null`)
 RETURNS_NULL = ("IndexError", "merge_error")
+CONSUMES_PARAM = {"PyVar_Assign": (1,)}
+
+
+# Functions NOT under the T-REF contract: their reference handling goes through
+# container slots (keys[i] / values[i] / data[i] moved by memmove, cursor fields
+# of SetIteration / BTreeItems filled and released by different functions, state
+# tuples built item by item), which the local discipline above cannot express.
+# They are covered only by the bounded stand-in refcount_rt; evidence lists them.
+OUTSIDE = ('BTreeItems_length_or_nonzero', 'BTreeIter_next', 'BTree__p_resolveConflict', 'BTree_byValue', 'BTree_findRangeEnd', 'BTree_getstate', 'BTree_grow', 'BTree_split', 'Bucket_deleteNextBucket', 'Generic_set_xor', 'PreviousBucket', 'TreeSet_iand', '_BTree_setstate', '_bucket__p_resolveConflict', '_bucket_set', '_bucket_setstate', '_set_setstate', 'bucket_byValue', 'bucket_items', 'buildBTreeIter', 'buildBucketIter', 'get_bucket_state', 'initSetIteration', 'module_init', 'newBTreeItems', 'nextGenericKeyIter', 'set_iand', 'set_operation', 'set_repr', 'wintersection_m', 'wunion_m')
 
 
 def unwrap(n):
@@ -45,8 +54,18 @@ def unwrap(n):
 class TRef(CExec):
     family = "T-REF"
 
+    @classmethod
+    def applies(cls, tu, fname):
+        return fname not in OUTSIDE
+
     def on_entry(self, st):
         st.ghost["owed"] = z3.K(INT, z3.IntVal(0))
+        st.ghost["freshobj"] = z3.K(INT, z3.BoolVal(False))
+        # parameters whose reference the caller hands over (ASSIGN idiom)
+        params = [p for p in self.fn.get("inner", []) if p["kind"] == "ParmVarDecl"]
+        for i in CONSUMES_PARAM.get(self.fname, ()):
+            v = st.vars[params[i]["id"]]
+            st.ghost["owed"] = z3.Store(st.ghost["owed"], v, z3.If(v != 0, 1, 0))
         self.assumptions.append(z3.Int("p!ref") != 0)
         # immortal singletons (CPython >= 3.12: Py_RETURN_NONE/TRUE/FALSE do not count references)
         for g in IMMORTAL:
@@ -66,7 +85,7 @@ class TRef(CExec):
         x = unwrap(node)
         k = x.get("kind")
         if k == "DeclRefExpr":
-            return True
+            return x["referencedDecl"]["id"] not in self.tu.globals
         if k == "UnaryOperator" and x.get("opcode") == "&":
             return unwrap(x["inner"][0]).get("kind") == "DeclRefExpr"
         if k == "MemberExpr" and not x.get("isArrow"):
@@ -88,6 +107,11 @@ class TRef(CExec):
         if name in ("Py_NewRef", "Py_XNewRef", "_Py_NewRef", "_Py_XNewRef"):
             self.bump(st, args[0], 1)
             return args[0]
+        if name in CONSUMES_PARAM and name in self.tu.functions:
+            for i in CONSUMES_PARAM[name]:
+                self.bump(st, args[i], -1)
+            self.havoc_heap(st, "call " + name)
+            return fresh("ret_" + name)
         if name in capi.STEALS:
             for i in capi.STEALS[name]:
                 if i < len(args):
@@ -108,10 +132,19 @@ class TRef(CExec):
             return z3.IntVal(0)
         if newref:
             self.bump(st, r, 1)
+            st.ghost["freshobj"] = z3.Store(st.ghost["freshobj"], r, z3.BoolVal(True))
         if name in OUT_NEWREF:
             idx, cond = OUT_NEWREF[name]
             v = fresh("out_ref")
-            self.out_values[idx] = v
+            # the callee writes the out-parameter only when it hands a reference over
+            x = unwrap(arg_nodes[idx])
+            oldv = None
+            if x.get("kind") == "UnaryOperator" and x.get("opcode") == "&":
+                try:
+                    oldv = self.load(self.lvalue(x["inner"][0], st), st)
+                except Exception:
+                    oldv = None
+            self.out_values[idx] = z3.If(cond(r), v, oldv) if oldv is not None else v
             self.bump(st, v, 1, cond(r))
         return r
 
@@ -120,15 +153,29 @@ class TRef(CExec):
         if n.get("opcode") == "=":
             a, b = n["inner"]
             t = n.get("type", {}).get("qualType", "")
-            if t in PTR_RESULT or t.endswith("*") and ("PyObject" in t or "Bucket" in t or "BTree" in t or "Sized" in t):
+            if t in PTR_RESULT:
                 la = unwrap(a)
                 heapish = la.get("kind") in ("ArraySubscriptExpr",) or \
                     (la.get("kind") == "MemberExpr" and (la.get("isArrow") or
                                                           unwrap(la["inner"][0]).get("kind") in ("ArraySubscriptExpr", "UnaryOperator"))) or \
                     (la.get("kind") == "UnaryOperator" and la.get("opcode") == "*")
-                if heapish and self.is_local_operand(b):
+                single = False and la.get("kind") == "MemberExpr" and la.get("isArrow") and \
+                    unwrap(la["inner"][0]).get("kind") == "DeclRefExpr"
+                if heapish and (self.is_local_operand(b) or single):
+                    oldv = None
+                    if single:
+                        # p->f = v on a single-pointer field of an existing object: the
+                        # activation takes over the reference the field held (it must
+                        # release it or has already done so); fields of objects created
+                        # in this activation start out NULL
+                        lv = self.lvalue(a, st)
+                        oldv = self.load(lv, st)
+                        isfresh = z3.Select(st.ghost["freshobj"], lv[2])
                     v = super().rv_BinaryOperator(n, st)
-                    self.bump(st, v, -1)
+                    if self.is_local_operand(b):
+                        self.bump(st, v, -1)
+                    if oldv is not None:
+                        self.bump(st, oldv, 1, z3.Not(isfresh))
                     return v
         return super().rv_BinaryOperator(n, st)
 
